@@ -492,7 +492,7 @@ def model_op(case, obs):
     if k == "field":
         return {"op": "c01_field", "kind": kind_of(case["type"]), "val": obs["tval"]}
     return [{"op": "wire_write", "objs": obs["pvs"]},
-            {"op": "wire_read", "hex": obs["stream"], "hashes": obs["hashes"]}]
+            {"op": "wire_read", "hex": obs["stream"]}]      # identifiers by the model's own SHA-256 (Spec.descriptorHash)
 
 
 def norm_mv(m):
